@@ -65,7 +65,7 @@ OTHER = {"C06-D": "C11",     # template field lost over dump / reload: C11's sta
          "C10-Q": "C04",     # owns() compares To4() forms: IPv6 exporters with colliding keys share templates (C04)
          "C13-R": "C16",     # mirror copy returned to the pool at datagram length when the mirror queue is full (C16)
          "C17-R": "C15",     # Prometheus statistics ignore stats-http-addr (Lifecycle stage in C15)
-         "C18-Q": "C13"}     # the sFlow worker decodes a second time without the filter (C13: accounting)
+         "C18-Q": "C18"}     # the sFlow worker decodes a second time without the filter (C13: accounting)
 # known not to be detected (DESIGN.md section 9 says why)
 MISSED = {"C02-Q",           # double hashing with a stride that is 0 for one address in 2^32: the driver calls getShard, whose signature changes (exit 2)
           "C18-R"}           # filter sets cached by the FNV-32 sum of the list: needs two lists that collide, in one process
